@@ -243,6 +243,12 @@ macro_rules! angle_systems {
                         same_slice(ctx, &key(concat!($label, "/sub")), &[(x - y).0], &[a - b]);
                         same_slice(ctx, &key(concat!($label, "/neg")), &[(-x).0], &[-a]);
                         same_slice(ctx, &key(concat!($label, "/mul_scalar")), &[(x * s).0], &[a * s]);
+                        // ... whichever way the operands are passed (C17 compares the spellings with one another; here each
+                        // of them is held to the underlying number)
+                        same_slice(ctx, &key(concat!($label, "/neg/by-reference")), &[(-&x).0], &[-a]);
+                        same_slice(ctx, &key(concat!($label, "/add/by-reference")), &[(&x + &y).0, (x + &y).0, (&x + y).0], &[a + b, a + b, a + b]);
+                        same_slice(ctx, &key(concat!($label, "/sub/by-reference")), &[(&x - &y).0, (x - &y).0, (&x - y).0], &[a - b, a - b, a - b]);
+                        same_slice(ctx, &key(concat!($label, "/mul_scalar/by-reference")), &[(&x * s).0], &[a * s]);
                         let mut t = x;
                         t += y;
                         same_slice(ctx, &key(concat!($label, "/add_assign")), &[t.0], &[a + b]);
